@@ -6,7 +6,7 @@ import sys
 from ..astutil import call_attr, dotted, statements, calls
 from ..cfg import CFG, enclosing_loops
 from ..facts import Facts, fact
-from ..report import control, Ctx
+from ..report import control, Ctx, include
 from ..sym import Env, _sym
 from .. import variants
 from . import C07, C15
@@ -33,7 +33,7 @@ individual encodings mean are those of C07 (crossing requirement), C10 (cardinal
 """
 NOT_DECIDED = "that each individual encoding (window arithmetic, implication shapes of the run-length constraints, derivation index shifts, Latin-square rotations) means its documentation for every design."
 
-INCLUDED = ["C10", "C14", "C15", "C16", "C26"]
+INCLUDED = ["C10", "C14", "C15", "C16", "C18", "C26"]
 NO_EMISSION = {"Reify": "documented no-op: only makes a factor non-implied", "ContinuousConstraint": "acts on continuous values after the discrete solve",
                "MinimumTrials": "acts on the trial count (Block.min_trials), skipped by build_backend_request"}
 
@@ -347,26 +347,6 @@ def rule_pipeline(ctx):
     C15.gate_rule(ctx, "C01.gate")
 
 
-def include(ctx, name):
-    """evaluate another property's clauses under their own rule names (their positive controls are skipped)"""
-    mod = importlib.import_module("sa.rules." + name)
-    sub = Ctx(ctx.prop, ctx.tier, ctx.repo)
-    sub.is_control = True
-    try:
-        mod.check(sub)
-    finally:
-        for f in sub.findings:
-            if not any(g.key == f.key and g.rule == f.rule for g in ctx.findings):
-                ctx.findings.append(f)
-        ctx.instances.extend(sub.instances)
-        for k, v in sub.rule_counts.items():
-            ctx.rule_counts[k] = ctx.rule_counts.get(k, 0) + v
-        ctx.functions |= sub.functions
-        for nn in sub.notes:
-            ctx.note(nn)
-        ctx.exceptions.extend(x for x in sub.exceptions if x not in ctx.exceptions)
-
-
 def check(ctx):
     rule_install(ctx)
     rule_apply_all(ctx)
@@ -374,10 +354,10 @@ def check(ctx):
     rule_fresh(ctx)
     rule_pipeline(ctx)
     C07.crossing_facts(ctx, R="C01.crossing")
-    if not ctx.is_control:
+    C07.latin_rotations(ctx, R="C01.latin")
+    if not ctx.is_control or getattr(ctx, "nested_ok", False):
         for name in INCLUDED:
             include(ctx, name)
-        ctx.extra["included_clauses"] = INCLUDED
     mod = sys.modules[__name__]
     C = "sweetpea/_internal/constraint.py"
     control(ctx, mod, "Sustain forgets to store the counter", lambda s: variants.in_function(s, C, "Sustain.apply", "        backend_request.fresh = new_fresh\n", "        pass\n"), "C01.fresh")
